@@ -160,7 +160,7 @@ def q_emulator_kernel(k=1, nmax=8):
     try:
         rowloop, qsrc, src = _locate()
     except Unsupported as ex:
-        return SmtResult(status="unknown", detail=f"kernel not encoded: {ex}")
+        return SmtResult(status="not_encoded", detail=f"kernel not encoded: {ex}")
     i = z3.BitVec("i", W)
     n = z3.BitVec("n", W)
     q = [z3.BitVec(f"q{t}", W) for t in range(k)]
@@ -168,7 +168,7 @@ def q_emulator_kernel(k=1, nmax=8):
     try:
         it.run(rowloop.body)
     except Unsupported as ex:
-        return SmtResult(status="unknown", detail=f"kernel not encoded: statement outside the supported subset: {ex}")
+        return SmtResult(status="not_encoded", detail=f"kernel not encoded: statement outside the supported subset: {ex}")
     dom = [z3.ULE(1, n), z3.ULE(n, nmax), z3.ULT(i, bv(1) << n)]
     for a in q:
         dom.append(z3.ULT(a, n))
@@ -451,7 +451,7 @@ def q_normalise(m=2):
     try:
         run(fn.body)
     except Unsupported as ex:
-        return SmtResult(status="unknown", detail=f"normalisation not encoded: {ex}")
+        return SmtResult(status="not_encoded", detail=f"normalisation not encoded: {ex}")
     stored = env.get("self._probabilities")
     if not isinstance(stored, list):
         return SmtResult(status="unknown", detail="self._probabilities not assigned a vector")
